@@ -86,11 +86,23 @@ func (r *mbRec) trace() string {
 	return joinOrDash(parts)
 }
 
+// re=1 (WindowWhen): the source value that follows a boundary tick in `order` is sent from INSIDE the Complete callback of the
+// window that tick closes (re-entrantly, same goroutine) instead of after the tick has returned. The closing window has already
+// been replaced when it is completed, so the value belongs to the new window — the logical model's answer for the order
+// "tick, value" must also be the answer here (a flush that completes the old window before installing the new one loses it).
+var mbOnInnerComplete func()
+
 func mbSubscribeInner(in *mbInner, obs ro.Observable[int]) {
 	obs.Subscribe(ro.NewObserver(
 		func(v int) { in.add("N" + strconv.Itoa(v)) },
 		func(err error) { in.add("E" + renderErr(err)) },
-		func() { in.add("C") },
+		func() {
+			in.add("C")
+			if h := mbOnInnerComplete; h != nil {
+				mbOnInnerComplete = nil
+				h()
+			}
+		},
 	))
 }
 
@@ -466,9 +478,34 @@ func runMultiBCase(c *Case) string {
 	}
 
 	pos := make([]int, n)
+	reenter := c.get("re", "0") == "1" && op == "WindowWhen" && !blocking && cut < 0
+	skipNext := false
+	mbOnInnerComplete = nil
 	for idx, i := range order {
+		if skipNext {
+			skipNext = false
+			continue
+		}
 		if idx == cut {
 			sub.Unsubscribe()
+		}
+		if reenter && i == 1 && idx+1 < len(order) && order[idx+1] == 0 && pos[1] < len(probes[1].script) && probes[1].script[pos[1]].kind == 'N' &&
+			pos[0] < len(probes[0].script) && probes[0].script[pos[0]].kind == 'N' {
+			// boundary tick followed by a source value: the value is pushed from inside the closing window's Complete callback
+			k1, k0 := pos[1], pos[0]
+			pos[1]++
+			pos[0]++
+			pushed := false
+			mbOnInnerComplete = func() { pushed = true; probes[0].push(k0) }
+			probes[1].push(k1)
+			mbOnInnerComplete = nil
+			r.tick()
+			if !pushed { // no window was completed by this tick (nobody listening): plain order
+				probes[0].push(k0)
+			}
+			r.tick()
+			skipNext = true
+			continue
 		}
 		if i >= 0 && i < n && pos[i] < len(probes[i].script) {
 			k := pos[i]
@@ -753,6 +790,28 @@ func genMultiB(tier string, seed int64, only string) []*Case {
 		}
 	}
 	thorough := tier == "thorough"
+	if only == "" || only == "WindowWhen" {
+		// re-entrant variant of WindowWhen: every interleaving of short scripts in which a tick is directly followed by a value
+		wv := mbVariant{"WindowWhen", "plain", nil, 2, 2, true}
+		for _, sh0 := range mbShapes(3) {
+			for _, sh1 := range mbShapes(2) {
+				scripts := [][]Tok{mbScript(0, sh0), mbScript(1, sh1)}
+				for _, ord := range mbInterleavings([]int{len(scripts[0]), len(scripts[1])}) {
+					has := false
+					for j := 0; j+1 < len(ord); j++ {
+						if ord[j] == 1 && ord[j+1] == 0 {
+							has = true
+						}
+					}
+					if has && (thorough || r.Intn(3) == 0) {
+						id++
+						cases = append(cases, newCase(id, "kind", "multib", "op", wv.op, "var", wv.variant, "n", "2", "outer", "C", "re", "1",
+							"srcs", mbScriptsString(scripts), "order", intsString(ord)))
+					}
+				}
+			}
+		}
+	}
 	for _, v := range mbVariants {
 		if only != "" && v.op != only {
 			continue
